@@ -624,6 +624,15 @@ def replay_history(inputs):
                         elif r_ < 0.6:
                             inner[t + int(rng.integers(0, max(1, u_ - t))):u_, a_] = states[t, a_]
                     t = u_
+    if inputs.get('degenerate') and 'states' not in inputs and states.shape[1] >= 3:
+        # an atom that never changes state placed before the moving ones, and an atom whose whole history is one direct site-to-site hop
+        states = states.copy()
+        inner = inner.copy()
+        states[:, 0] = states[0, 0]
+        inner[:, 0] = inner[0, 0]
+        th = 1 + (int(inputs.get('seed', 0)) % (states.shape[0] - 1))
+        states[:th, 1], states[th:, 1] = 0, 1
+        inner[:, 1] = states[:, 1]
     bad = []
     N = states.shape[1]
     dflt = _run(states, states, 0)
@@ -675,11 +684,24 @@ def bounded_histories(tier, seed):
                 st.case((h, inner), nontrivial=True, sample=inp if cnt % 500 == 0 else None)
                 if r['reproduced']:
                     st.violation('history', r['detail'], 'verif.props.c04:replay_history', inp)
+    for h in itertools.product((-1, 0, 1), repeat=3):
+        if len(set(h)) == 1:
+            continue
+        for still in (-1, 0, 2):
+            inp = {'states': [[still, x] for x in h], 'inner': [[still, x] for x in h]}  # a never-moving atom before the moving one
+            r = st.guard(replay_history, inp)
+            if r is None:
+                continue
+            st.case((still, h), nontrivial=True, sample=None)
+            if r['reproduced']:
+                st.violation('history', r['detail'], 'verif.props.c04:replay_history', inp)
     for c in range(40 if tier == 'quick' else 1500):
         inp = {'seed': int(rng.integers(1, 10 ** 6)), 'T': int(rng.choice([40, 120, 400])), 'N': 3, 'S': int(rng.choice([2, 3, 5])),
                'p': float(rng.choice([0.1, 0.35, 0.7])), 'pin': float(rng.choice([0.3, 0.6, 1.0])), 'visits': c % 2 == 1}
         if inp['visits']:
             inp['T'] = 40
+        if c % 3 == 0:
+            inp['degenerate'] = True
         r = st.guard(replay_history, inp)
         if r is None:
             continue
